@@ -271,8 +271,9 @@ def run(ctx):
                     for comp in parts[:-1]:
                         node = node.setdefault(comp, {})
                     node[parts[-1]] = None
-                walked = lean_driver('fs', ['roots ' + ' '.join(c18.encode(tree)), 'walk 0 ' + rel])[-1].split()
-                seen_layouts[key] = lean_driver('select', ['expand %s %s' % (rel.replace('/', '.'), ' '.join(walked))])[-1].split()
+                fs_out = lean_driver('fs', ['roots ' + ' '.join(c18.encode(tree)), 'walk 0 ' + rel, 'walkpkgs 0 ' + rel])
+                walked, pkgs = fs_out[-2].split(), fs_out[-1].split()
+                seen_layouts[key] = lean_driver('select', ['expand %s %s | %s' % (rel.replace('/', '.'), ' '.join(walked), ' '.join(pkgs))])[-1].split()
             if sorted(set(r['M'])) != sorted(set(seen_layouts[key])):
                 kdiff += 1
                 ctx.broken.append(('K09 correspondence (expansion of a selected package)', 'selection %s: model %s real %s' % (c['prof_mod'], sorted(set(seen_layouts[key])), sorted(set(r['M'])))))
